@@ -1,7 +1,7 @@
 (* C14 — per-tag attribute rules are enforced exactly. *)
 From hls Require Import Base Float Lex Kinds Types Tags Line Keys Media Master.
 From hls.Generated Require Import Tables.
-From hls.Proofs Require Import Build C14 AttrOrder AttrTables KeyIff.
+From hls.Proofs Require Import Build C14 AttrOrder AttrTables KeyIff StreamIff.
 From Coq Require Import String.
 From Coq Require Import Permutation.
 Open Scope N_scope.
@@ -134,4 +134,43 @@ Example C14_example :
   /\ is_ok (parse_xmedia (lit "#EXT-X-MEDIA:TYPE=CLOSED-CAPTIONS,GROUP-ID=""c"",NAME=""n"",INSTREAM-ID=""CC1""")) = true
   /\ is_err (parse_daterange (lit "#EXT-X-DATERANGE:ID=""a"",END-ON-NEXT=YES")) = true
   /\ is_ok (parse_daterange (lit "#EXT-X-DATERANGE:ID=""a"",CLASS=""c"",END-ON-NEXT=YES")) = true.
+Proof. vm_compute. repeat split. Qed.
+
+(* stream tags as an iff over ALL attribute lists (any order, duplicates, unknown attributes): accepted exactly when every
+   BANDWIDTH / AVERAGE-BANDWIDTH / RESOLUTION / HDCP-LEVEL (and FRAME-RATE) attribute is well formed and some BANDWIDTH attribute is
+   present — an AVERAGE-BANDWIDTH does not stand in for it —, and for the I-frame form some URI attribute *)
+Theorem C14_streaminf_iff : forall line uri,
+  is_ok (parse_streaminf line uri) =
+  match tag line pfx_VariantStream_EXTXSTREAMINF with
+  | Ok rest => forallb si_pair_ok (attr_pairs rest) && forallb sd_pair_ok (attr_pairs rest) && existsb is_bw (attr_pairs rest)
+  | _ => false
+  end.
+Proof. exact streaminf_accept_iff. Qed.
+Check C14_streaminf_iff : forall line uri,
+  is_ok (parse_streaminf line uri) =
+  match tag line pfx_VariantStream_EXTXSTREAMINF with
+  | Ok rest => forallb si_pair_ok (attr_pairs rest) && forallb sd_pair_ok (attr_pairs rest) && existsb is_bw (attr_pairs rest)
+  | _ => false
+  end.
+Print Assumptions C14_streaminf_iff.
+Theorem C14_iframe_iff : forall line,
+  is_ok (parse_iframe line) =
+  match tag line pfx_VariantStream_EXTXIFRAME with
+  | Ok rest => is_some (find_uri (attr_pairs rest)) && forallb sd_pair_ok (attr_pairs rest) && existsb is_bw (attr_pairs rest)
+  | _ => false
+  end.
+Proof. exact iframe_accept_iff. Qed.
+Check C14_iframe_iff : forall line,
+  is_ok (parse_iframe line) =
+  match tag line pfx_VariantStream_EXTXIFRAME with
+  | Ok rest => is_some (find_uri (attr_pairs rest)) && forallb sd_pair_ok (attr_pairs rest) && existsb is_bw (attr_pairs rest)
+  | _ => false
+  end.
+Print Assumptions C14_iframe_iff.
+Example C14_stream_example :
+  is_ok (parse_streaminf (lit "#EXT-X-STREAM-INF:AVERAGE-BANDWIDTH=5,BANDWIDTH=7,X=1,BANDWIDTH=9") (lit "u")) = true
+  /\ is_ok (parse_streaminf (lit "#EXT-X-STREAM-INF:AVERAGE-BANDWIDTH=5") (lit "u")) = false
+  /\ is_ok (parse_iframe (lit "#EXT-X-I-FRAME-STREAM-INF:BANDWIDTH=7")) = false
+  /\ is_ok (parse_iframe (lit "#EXT-X-I-FRAME-STREAM-INF:URI=""i"",BANDWIDTH=7,HDCP-LEVEL=TYPE-0")) = true
+  /\ is_ok (parse_iframe (lit "#EXT-X-I-FRAME-STREAM-INF:URI=""i"",BANDWIDTH=7,HDCP-LEVEL=TYPE-9")) = false.
 Proof. vm_compute. repeat split. Qed.
